@@ -37,6 +37,7 @@ func main() {
 	tier := flag.String("tier", "quick", "quick|thorough")
 	dump := flag.String("dump", "", "dump descriptors of a function (stable name)")
 	list := flag.Bool("list", false, "list function names")
+	errflow := flag.Bool("errflow", false, "list every error-returning call with its disposition")
 	edges := flag.Bool("edges", false, "with -list: print caller -> callee for every call with a resolved name")
 	replay := flag.String("replay", "", "replay file written by an earlier run")
 	evdir := flag.String("evidence", "", "evidence directory (default <verif>/evidence)")
@@ -45,6 +46,7 @@ func main() {
 	verbose := flag.Bool("v", false, "print every obligation")
 	noSelfTest := flag.Bool("no-selftest", false, "thorough tier without the mutant self-test")
 	writeBaseline := flag.Bool("write-baseline", false, "record the symbols of -repo as <verif>/baseline/symbols.json (done once, on the pinned tree)")
+	writeErrflow := flag.Bool("write-errflow", false, "record the error dispositions of -repo as <verif>/baseline/errflow.json (done once, on the pinned tree with the fix: commits)")
 	flag.Parse()
 
 	if *vdir != "" {
@@ -73,6 +75,20 @@ func main() {
 		return
 	}
 	engine.BaselinePath = filepath.Join(verifDir, "baseline", "symbols.json")
+	if *writeErrflow {
+		p, err := engine.Load(engine.LoadOpts{Dir: *repo})
+		if err != nil {
+			fmt.Fprintln(os.Stderr, err)
+			os.Exit(2)
+		}
+		n, err := rules.WriteErrflowBaseline(p, filepath.Join(verifDir, "baseline", "errflow.json"))
+		if err != nil {
+			fmt.Fprintln(os.Stderr, err)
+			os.Exit(2)
+		}
+		fmt.Printf("errflow baseline written: %d (function, callee) groups\n", n)
+		return
+	}
 
 	if *replay != "" {
 		b, err := os.ReadFile(*replay)
@@ -99,11 +115,23 @@ func main() {
 		}
 	}()
 
-	if *dump != "" || *list {
+	if *dump != "" || *list || *errflow {
 		p, err := engine.Load(engine.LoadOpts{Dir: *repo})
 		if err != nil {
 			fmt.Fprintln(os.Stderr, err)
 			os.Exit(2)
+		}
+		if *errflow {
+			for _, fn := range p.AllFuncs() {
+				for _, es := range p.ErrSitesIn(fn) {
+					st := "-"
+					if es.Strict {
+						st = "S"
+					}
+					fmt.Printf("%s %-60s %-50s %-28s %s\n", st, p.Name(fn), es.Callee, es.Disp, p.InstrPos(es.Call))
+				}
+			}
+			return
 		}
 		if *list {
 			for _, n := range p.FuncNames() {
